@@ -86,7 +86,8 @@ def returns_of(func):
 
 
 def calls_in(node):
-    return [n for n in walk_no_nested(node) if isinstance(n, ast.Call)]
+    """Call nodes inside `node` (not in nested defs), in source order."""
+    return sorted((n for n in walk_no_nested(node) if isinstance(n, ast.Call)), key=lambda c: (c.lineno, c.col_offset))
 
 
 def find_calls(func, name_suffix):
